@@ -79,10 +79,11 @@ pub fn max_end(items: &Vec<BedEntry>) -> (r: u32)
 //@rule R7 min=1
 //@rule R8
 //@presub /use libdeflater::\{CompressionLvl, Compressor\};\n/ => ""
-//@presub /let mut compressor = Compressor::new\(CompressionLvl::default\(\)\);\s*let max_sz = compressor\.zlib_compress_bound\(bytes\.len\(\)\);\s*let mut compressed_data = vec!\[0; max_sz\];\s*let actual_sz = compressor\s*\.zlib_compress\(&bytes, &mut compressed_data\)\s*\.unwrap\(\);\s*compressed_data\.resize\(actual_sz, 0\);/ => let compressed_data = deflate_vec(&bytes); let actual_sz = compressed_data.len(); let max_sz = actual_sz;
+//@presub /let mut compressor = Compressor::new\(CompressionLvl::default\(\)\);\s*let max_sz = compressor\.zlib_compress_bound\(bytes\.len\(\)\);\s*let mut compressed_data = vec!\[0; max_sz\];\s*let actual_sz = compressor\s*\.zlib_compress\(&bytes, &mut compressed_data\)\s*\.unwrap\(\);\s*compressed_data\.(?:resize\(actual_sz, 0\)|truncate\(actual_sz\));/ => let compressed_data = deflate_vec(&bytes); let actual_sz = compressed_data.len(); let max_sz = actual_sz;
 //@presub /items_in_section\s*\.iter\(\)\s*\.map\(\|item\| item\.end\)\s*\.fold\(items_in_section\[0\]\.end, u32::max\)/ => max_end(&items_in_section) min=0
 //@sub /let mut bytes = Vec::with_capacity\(items_in_section\.len\(\) \* 30\);/ => let mut bytes = Sink::with_capacity(0);
-//@sub /\(bytes, 0\)/ => (bytes.bytes, 0)
+//@sub /\(bytes, 0\)/ => (bytes.bytes, 0) min=0
+//@sub /\}\s*else\s*\{\s*bytes\s*\}/ => } else { bytes.bytes } min=0
 //@sub /io::Result</ => Result<
 //@sub /usize\)> \{/ => usize), IoError> {
 //@sub /item\.rest\.as_bytes\(\)/ => item.rest.as_slice() min=0
@@ -123,7 +124,7 @@ pub fn max_end(items: &Vec<BedEntry>) -> (r: u32)
         proof {
             assert(bytes@ == put_bb_rec(b0, chrom_id, *item)); [[L: loop/record_layout]]
         }
-//@at /let \(out_bytes, uncompress_buf_size\) = if compress/ before
+//@at /let [^=;]*= if compress \{/ before
     proof {
         assert(items_in_section@.subrange(0, items_in_section@.len() as int) =~= items_in_section@);
     }
